@@ -57,6 +57,7 @@ fn base(channels: usize, bits: usize, block: usize, nfull: usize, residue: usize
         pre_reads: 0,
         synthetic_silence: false,
         pre: None,
+        via_mem: false,
     }
 }
 
